@@ -188,10 +188,13 @@ class Fn:
         if isinstance(node, ast.Call) and isinstance(node.func, ast.Name) and node.func.id == "sandwich__" and len(node.args) == 3 and not node.keywords:
             # np.asarray([l.T @ G @ r]), renamed by the fragment selector; operands evaluated left to right, None raises
             args = [self.expr(a, env, binds) for a in node.args]
-            if [ty for _, ty in args] != [OPTW, OPTELT, OPTW]:
+            if [ty for _, ty in args] not in ([OPTW, OPTELT, OPTW], [WVEC, OPTELT, WVEC]):
                 raise TranslateError("%s: projection of %s" % (self.name, [ty for _, ty in args]))
             names = []
-            for a, _ in args:
+            for a, ty in args:
+                if ty == WVEC:
+                    names.append(a)
+                    continue
                 r = self.fresh()
                 binds.append((r, "py_eun (fun x_ => x_) %s" % a))
                 names.append(r)
@@ -491,7 +494,7 @@ class Fn:
             return t, {STRLIST: STR}[ty]
         if key in self.aliases:
             t, ty = self.aliases[key]
-            return t, {IDLLIST: IDL, INTLIST: INT, STRLIST: STR}[ty]
+            return t, {IDLLIST: IDL, INTLIST: INT, STRLIST: STR, CONTENT: OPTELT}[ty]
         if isinstance(node, ast.Call) and isinstance(node.func, ast.Name) and node.func.id == "range" and not node.keywords:
             args = [self.expr(a, env, binds) for a in node.args]
             if any(ty != INT for _, ty in args):
@@ -1677,6 +1680,22 @@ def frag_meff_root_loop(fn):
     return [ast.fix_missing_locations(st) for st in stmts] + [ast.Return(value=ast.Name(id="newcontent", ctx=ast.Load()))]
 
 
+def frag_projected_single(fn):
+    """Corr.projected: the statement of the single-vector branch that builds the new content."""
+    import copy
+    want = _d(ast.parse("not isinstance(vector_l, list)", mode="eval").body)
+    hits = [st for st in fn.body if isinstance(st, ast.If) and _d(st.test) == want]
+    if len(hits) != 1:
+        raise TranslateError("Corr.projected: the single-vector branch was not found exactly once")
+    last = hits[0].body[-1]
+    if not (isinstance(last, ast.Assign) and len(last.targets) == 1 and isinstance(last.targets[0], ast.Name) and last.targets[0].id == "newcontent"):
+        raise TranslateError("Corr.projected: the single-vector branch does not end with the assignment of newcontent")
+    if any(isinstance(n, ast.Name) and n.id == "newcontent" for st in hits[0].body[:-1] for n in ast.walk(st)):
+        raise TranslateError("Corr.projected: newcontent is touched before it is built")
+    val = _RewriteProjection().visit(copy.deepcopy(last.value))
+    return [ast.fix_missing_locations(ast.Return(value=val))]
+
+
 def frag_projected_lists(fn):
     """Corr.projected: the branch for one vector pair per timeslice (the `else:` of `if not isinstance(vector_l, list):`), up to the new content."""
     import copy
@@ -1752,6 +1771,9 @@ MEFF_SIGS = [
          extra_params=[("v_content", CONTENT), ("v_is_sinh", BOOL)], env={"is_sinh": BOOL}, aliases=_CORR_ALIASES, hints={"newcontent": CONTENT}),
 ]
 PROJ_SIGS = [
+    dict(coq="corr_projected_single", py="Corr.projected", fragment=frag_projected_single, params=[], ret=CONTENT, file="correlators.py", section="proj",
+         extra_params=[("v_content", CONTENT), ("v_vector_l", WVEC), ("v_vector_r", WVEC)],
+         env={"vector_l": WVEC, "vector_r": WVEC}, aliases=_CORR_ALIASES),
     dict(coq="corr_projected_lists", py="Corr.projected", fragment=frag_projected_lists, params=[], ret=CONTENT, file="correlators.py", section="proj",
          extra_params=[("v_content", CONTENT), ("v_vector_l", OPTWLIST), ("v_vector_r", OPTWLIST), ("v_normalize", BOOL)],
          env={"vector_l": OPTWLIST, "vector_r": OPTWLIST, "normalize": BOOL}, aliases=_CORR_ALIASES),
